@@ -506,8 +506,11 @@ def render_msg(m):
     elif body[0] == "handshake":
         _, wf, objknown, val = body
         if wf:
-            payload = ser.dumps({"handshake": {"accept": "accept", "raises": "raise", "unser": "unser"}[val],
-                                 "object": "target" if objknown else "nosuchobject"})
+            d = {"handshake": {"accept": "accept", "raises": "raise", "unser": "unser"}[val],
+                 "object": "target" if objknown else "nosuchobject"}
+            # extra members a peer may add to the handshake payload never change the decision
+            d.update(m.get("extra") or {})
+            payload = ser.dumps(d)
         else:
             payload = ser.dumps(["not", "a", "handshake"])
     else:
